@@ -525,8 +525,9 @@ impl Check for C04 {
                 (0..n).map(|_| if rng.chance(3, 4) { *rng.pick(b"\"'\\[]{}=.,#\n\r\t 019azTZ:-+_eE") } else { rng.below(256) as u8 }).collect()
             }
             "value-fragments" => {
-                // single values / keys / date-times: the non-document entry points get valid input too
-                match rng.below(6) {
+                // single values / keys / date-times: the non-document entry points get valid input too,
+                // bare and with blanks (of every kind) around them
+                let frag: Vec<u8> = match rng.below(6) {
                     0 => {
                         let v = gen::gen_datetime(rng);
                         gen::render_datetime(rng, &v).into_bytes()
@@ -553,6 +554,15 @@ impl Check for C04 {
                         let mut g = gen::DocGen::new(rng, cfg);
                         g.render_value_public(&v).into_bytes()
                     }
+                };
+                if rng.coin() {
+                    frag
+                } else {
+                    let pads = ["", " ", "  ", "\t ", "   \t", "\u{a0}", " \u{a0} ", "\n", "  \n", "\r\n ", "\u{feff}", "\u{2003} "];
+                    let mut out = rng.pick(&pads).as_bytes().to_vec();
+                    out.extend_from_slice(&frag);
+                    out.extend_from_slice(rng.pick(&pads).as_bytes());
+                    out
                 }
             }
             "datetime-strings" => datetime_string(rng),
@@ -567,11 +577,17 @@ impl Check for C04 {
                     };
                     let key = if rng.chance(2, 3) { 1 } else { pick(rng) };
                     let layers: Vec<crate::c05::Layer> = (0..rng.below(3))
-                        .map(|_| match rng.below(4) {
+                        .map(|_| match rng.below(9) {
                             0 => crate::c05::Layer::Array(pick(rng)),
                             1 => crate::c05::Layer::Inline(pick(rng), 1),
                             2 => crate::c05::Layer::Inline(pick(rng).min(30), 1 + rng.below(3)),
-                            _ => crate::c05::Layer::Mixed(pick(rng)),
+                            3 => crate::c05::Layer::Mixed(pick(rng)),
+                            // breadth instead of depth: must not count against the limit
+                            4 => crate::c05::Layer::WideArray(rng.below(8), *rng.pick(&[3usize, 40, 85, 200])),
+                            5 => crate::c05::Layer::WideInline(*rng.pick(&[2usize, 30, 79, 81, 150]), 1 + rng.below(3)),
+                            6 => crate::c05::Layer::Pre(rng.below(8), *rng.pick(&[3usize, 60, 85, 120])),
+                            7 => crate::c05::Layer::Inline(1, pick(rng)),
+                            _ => crate::c05::Layer::LedArray(rng.below(4), pick(rng)),
                         })
                         .collect();
                     let r = crate::c05::Recipe { header, key, layers };
